@@ -1,4 +1,447 @@
 import Bifrost.Model.SigClient
 /-! Invariants of the signaling client tracker LTS (C19, C21, C23). -/
 namespace Bifrost
+namespace SigClient
+open Bifrost.SigC
+
+/-! ### `getSend` / `setSend` -/
+
+theorem find_map_set (l : List SendCall) (c : SendCall) (id : Nat) :
+    (l.map fun x => if x.id = c.id then c else x).find? (fun x => decide (x.id = id)) =
+      if id = c.id then (l.find? (fun x => decide (x.id = id))).map (fun _ => c)
+      else l.find? (fun x => decide (x.id = id)) := by
+  induction l with
+  | nil => simp
+  | cons a l ih =>
+    simp only [List.map_cons, List.find?_cons]
+    grind
+
+theorem getSend_setSend (s : State) (c : SendCall) (id : Nat) :
+    getSend (setSend s c) id =
+      if id = c.id then (getSend s id).map (fun _ => c) else getSend s id := by
+  simp only [getSend, setSend]
+  exact find_map_set s.sends c id
+
+theorem getSend_id {s : State} {id : Nat} {c : SendCall} (h : getSend s id = some c) : c.id = id := by
+  have := List.find?_some h
+  simpa using this
+
+theorem getSend_mem {s : State} {id : Nat} {c : SendCall} (h : getSend s id = some c) : c ∈ s.sends :=
+  List.mem_of_find?_eq_some h
+
+theorem mem_setSend {s : State} {c x : SendCall} (h : x ∈ (setSend s c).sends) :
+    x = c ∨ x ∈ s.sends := by
+  simp only [setSend, List.mem_map] at h
+  obtain ⟨y, hy, rfl⟩ := h
+  split
+  · exact Or.inl rfl
+  · exact Or.inr hy
+
+theorem getSend_sendStart {s : State} {m : Msg} {id : Nat} {c : SendCall}
+    (h : getSend s id = some c) : getSend (sendStart s m) id = some c := by
+  simp only [getSend, sendStart] at *
+  rw [List.find?_append, h]; rfl
+
+/-! ### The invariant -/
+
+structure Inv (s : State) : Prop where
+  k0 : s.open_ = none → s.out = none
+  k1 : ∀ c ∈ s.sends, c.msg.seqno = c.id
+  k2 : ∀ o, s.out = some o → ∃ c, getSend s o.seqno = some c ∧ c.msg = o ∧
+        ((c.result = none ∧ c.txed = true) ∨ (c.result = some false ∧ s.outCancel = true))
+  k3a : ∀ r, s.recv = some r → (r, true, true, s.open_) ∈ s.accepted
+  k3b : ∀ r, s.recv = some r → s.recvProcessed = true → (r, s.open_) ∈ s.delivered
+  k4 : s.outAcked = true → ∃ o, s.out = some o ∧ ∃ ep, (o.seqno, ep) ∈ s.ackedLog
+  da : ∀ m ep, (m, ep) ∈ s.delivered → (m, true, true, ep) ∈ s.accepted
+  ad : ∀ e k, Req.ack e k ∈ s.emitted → ∃ m, (m, some e) ∈ s.delivered ∧ m.seqno = k
+  sa : ∀ c ∈ s.sends, c.result = some true → ∃ ep, (c.id, ep) ∈ s.ackedLog
+
+theorem inv_init : Inv {} := by
+  constructor <;> simp [getSend]
+
+theorem inv_close {s : State} (h : Inv s) : Inv (close s) := by
+  obtain ⟨k0, k1, k2, k3a, k3b, k4, da, ad, sa⟩ := h
+  constructor <;> simp_all [close]
+
+theorem inv_opened {s : State} (h : Inv s) (e : Nat) : Inv (opened s e) := by
+  unfold opened
+  split
+  · exact h
+  · obtain ⟨k0, k1, k2, k3a, k3b, k4, da, ad, sa⟩ := h
+    constructor <;> simp_all [getSend]
+
+theorem inv_recvMsg {s : State} (h : Inv s) (m : Msg) (v g : Bool) : Inv (recvMsg s m v g) := by
+  obtain ⟨k0, k1, k2, k3a, k3b, k4, da, ad, sa⟩ := h
+  unfold recvMsg
+  split
+  · constructor <;> simp_all [getSend]
+  · constructor <;> simp_all [getSend] <;> grind
+
+theorem inv_clearMsg {s : State} (h : Inv s) (k : Nat) : Inv (clearMsg s k) := by
+  unfold clearMsg
+  split
+  · obtain ⟨k0, k1, k2, k3a, k3b, k4, da, ad, sa⟩ := h
+    constructor <;> simp_all [getSend]
+  · exact h
+
+theorem inv_ackMsg {s : State} (h : Inv s) (k : Nat) : Inv (ackMsg s k) := by
+  unfold ackMsg
+  split
+  · obtain ⟨k0, k1, k2, k3a, k3b, k4, da, ad, sa⟩ := h
+    split
+    · constructor <;> simp_all [getSend]
+    · constructor <;> simp_all [getSend] <;> grind
+  · exact h
+
+theorem inv_recvStep {s : State} (h : Inv s) : Inv (recvStep s) := by
+  unfold recvStep
+  split
+  · split
+    · exact h
+    · obtain ⟨k0, k1, k2, k3a, k3b, k4, da, ad, sa⟩ := h
+      constructor <;> simp_all [getSend] <;> grind
+  · exact h
+
+theorem inv_txLoop {s : State} (h : Inv s) : Inv (txLoop s).1 := by
+  obtain ⟨k0, k1, k2, k3a, k3b, k4, da, ad, sa⟩ := h
+  unfold txLoop
+  split
+  · constructor <;> assumption
+  · split
+    · split
+      · constructor <;> simp_all [getSend]
+      · split
+        · constructor <;> simp_all [getSend]
+        · split
+          · split
+            · constructor <;> simp_all [getSend] <;> grind
+            · constructor <;> assumption
+          · constructor <;> assumption
+    · split
+      · split
+        · constructor <;> simp_all [getSend] <;> grind
+        · constructor <;> assumption
+      · constructor <;> assumption
+
+theorem inv_sendStart {s : State} (h : Inv s) (m : Msg) : Inv (sendStart s m) := by
+  obtain ⟨k0, k1, k2, k3a, k3b, k4, da, ad, sa⟩ := h
+  constructor
+  · simpa [sendStart] using k0
+  · intro c hc
+    simp only [sendStart, List.mem_append, List.mem_singleton] at hc
+    rcases hc with hc | rfl
+    · exact k1 c hc
+    · rfl
+  · intro o ho
+    obtain ⟨c, hc, h2⟩ := k2 o (by simpa [sendStart] using ho)
+    exact ⟨c, getSend_sendStart hc, by simpa [sendStart] using h2⟩
+  · simpa [sendStart] using k3a
+  · simpa [sendStart] using k3b
+  · simpa [sendStart] using k4
+  · simpa [sendStart] using da
+  · simpa [sendStart] using ad
+  · intro c hc
+    simp only [sendStart, List.mem_append, List.mem_singleton] at hc
+    rcases hc with hc | rfl
+    · simpa [sendStart] using sa c hc
+    · simp
+
+/-! ### list-level view of `getSend`/`setSend` -/
+
+def findL (l : List SendCall) (id : Nat) : Option SendCall := l.find? (fun x => decide (x.id = id))
+def setL (l : List SendCall) (c : SendCall) : List SendCall := l.map fun x => if x.id = c.id then c else x
+
+theorem getSend_def (s : State) (id : Nat) : getSend s id = findL s.sends id := rfl
+theorem setSend_def (s : State) (c : SendCall) : setSend s c = { s with sends := setL s.sends c } := rfl
+
+theorem findL_setL (l : List SendCall) (c : SendCall) (id : Nat) :
+    findL (setL l c) id = if id = c.id then (findL l id).map (fun _ => c) else findL l id :=
+  find_map_set l c id
+
+theorem mem_setL {l : List SendCall} {c x : SendCall} (h : x ∈ setL l c) : x = c ∨ x ∈ l := by
+  simp only [setL, List.mem_map] at h
+  obtain ⟨y, hy, rfl⟩ := h
+  split
+  · exact Or.inl rfl
+  · exact Or.inr hy
+
+theorem findL_id {l : List SendCall} {id : Nat} {c : SendCall} (h : findL l id = some c) : c.id = id := by
+  have := List.find?_some h
+  simpa using this
+
+theorem findL_mem {l : List SendCall} {id : Nat} {c : SendCall} (h : findL l id = some c) : c ∈ l :=
+  List.mem_of_find?_eq_some h
+
+theorem inv_sendCancel {s : State} (h : Inv s) (id : Nat) : Inv (sendCancel s id) := by
+  unfold sendCancel
+  split
+  · exact h
+  · rename_i c hc
+    split
+    · exact h
+    · rename_i hr
+      obtain ⟨k0, k1, k2, k3a, k3b, k4, da, ad, sa⟩ := h
+      have hid := findL_id hc
+      have hm := findL_mem hc
+      simp only [getSend_def] at hc k2
+      simp only [setSend_def]
+      split
+      · constructor
+        · exact k0
+        · intro x hx; rcases mem_setL hx with rfl | hx
+          · exact k1 c hm
+          · exact k1 x hx
+        · intro o ho
+          obtain ⟨c0, h0, h1, h2⟩ := k2 o ho
+          simp only [getSend_def, findL_setL]
+          grind
+        · exact k3a
+        · exact k3b
+        · exact k4
+        · exact da
+        · exact ad
+        · intro x hx; rcases mem_setL hx with rfl | hx
+          · simp
+          · exact sa x hx
+      · rename_i htx
+        have hk1 : ∀ x ∈ setL s.sends { c with result := some false }, x.msg.seqno = x.id := by
+          intro x hx; rcases mem_setL hx with rfl | hx
+          · exact k1 c hm
+          · exact k1 x hx
+        have hsa : ∀ x ∈ setL s.sends { c with result := some false }, x.result = some true →
+            ∃ ep, (x.id, ep) ∈ s.ackedLog := by
+          intro x hx; rcases mem_setL hx with rfl | hx
+          · simp
+          · exact sa x hx
+        split
+        · rename_i hout
+          split
+          · constructor
+            · simp
+            · exact hk1
+            · simp
+            · exact k3a
+            · exact k3b
+            · simp
+            · exact da
+            · exact ad
+            · exact hsa
+          · split
+            · constructor
+              · exact k0
+              · exact hk1
+              · intro o ho
+                obtain ⟨c0, h0, h1, h2⟩ := k2 o ho
+                simp only [getSend_def, findL_setL]
+                grind
+              · exact k3a
+              · exact k3b
+              · exact k4
+              · exact da
+              · exact ad
+              · exact hsa
+            · constructor
+              · exact k0
+              · exact hk1
+              · intro o ho
+                obtain ⟨c0, h0, h1, h2⟩ := k2 o ho
+                simp only [getSend_def, findL_setL]
+                grind
+              · exact k3a
+              · exact k3b
+              · exact k4
+              · exact da
+              · exact ad
+              · exact hsa
+        · rename_i hout
+          constructor
+          · exact k0
+          · exact hk1
+          · intro o ho
+            obtain ⟨c0, h0, h1, h2⟩ := k2 o ho
+            simp only [getSend_def, findL_setL]
+            grind
+          · exact k3a
+          · exact k3b
+          · exact k4
+          · exact da
+          · exact ad
+          · exact hsa
+
+inductive StepRes (s : State) (c : SendCall) : State → Prop
+  | keep (c' : SendCall) : c'.id = c.id → c'.msg = c.msg → c'.result = none →
+      (∀ o, s.out = some o → o.seqno = c.id → c'.txed = c.txed) → StepRes s c (setSend s c')
+  | take (c' : SendCall) : c'.id = c.id → c'.msg = c.msg → c'.result = none → c'.txed = true →
+      s.open_ ≠ none → s.out = none → StepRes s c (setSend { s with out := some c.msg } c')
+  | done (c' : SendCall) (o : Msg) : c'.id = c.id → c'.msg = c.msg → c'.result = some true →
+      s.out = some o → o.seqno = c.id → s.outAcked = true →
+      StepRes s c (setSend { s with out := none, outSent := false, outAcked := false } c')
+
+theorem sendStep_cases {s : State} {id : Nat} {c : SendCall}
+    (hc : getSend s id = some c) (hr : c.result = none) (hk0 : s.open_ = none → s.out = none) :
+    StepRes s c (sendStep s id) := by
+  obtain ⟨cid, cmsg, ctx, cep, cres⟩ := c
+  obtain ⟨open_, out, outSent, outAcked, outCancel, recv, recvProcessed, sends, delivered, emitted,
+    accepted, ackedLog, failed⟩ := s
+  simp only at hr hk0
+  subst hr
+  cases open_ with
+  | none =>
+    have := hk0 rfl
+    subst this
+    simp only [sendStep, hc]
+    exact StepRes.keep _ rfl rfl rfl (by simp)
+  | some e =>
+    cases out with
+    | none =>
+      by_cases hep : cep = some e <;> cases ctx <;> simp [sendStep, hc, hep] <;>
+        exact StepRes.take _ rfl rfl rfl rfl (by simp) rfl
+    | some o =>
+      by_cases hoid : o.seqno = cid <;> by_cases hep : cep = some e <;> cases ctx <;>
+        cases outAcked <;> simp [sendStep, hc, hep, hoid] <;>
+        first
+          | exact StepRes.done _ _ rfl rfl rfl rfl hoid rfl
+          | exact StepRes.keep _ rfl rfl rfl (by simp [hoid])
+
+theorem inv_sendStep {s : State} (h : Inv s) (id : Nat) : Inv (sendStep s id) := by
+  cases hc : getSend s id with
+  | none => simp only [sendStep, hc]; exact h
+  | some c =>
+    cases hr : c.result with
+    | some b => simp only [sendStep, hc, hr, Option.isSome_some, if_true]; exact h
+    | none =>
+      have hcases := sendStep_cases hc hr h.k0
+      obtain ⟨k0, k1, k2, k3a, k3b, k4, da, ad, sa⟩ := h
+      have hid := findL_id hc
+      have hm := findL_mem hc
+      simp only [getSend_def] at hc k2
+      generalize sendStep s id = s' at hcases
+      cases hcases with
+      | keep c' h1 h2 h3 h4 =>
+        simp only [setSend_def]
+        constructor
+        · exact k0
+        · intro x hx; rcases mem_setL hx with rfl | hx
+          · rw [h1, h2]; exact k1 c hm
+          · exact k1 x hx
+        · intro o ho
+          obtain ⟨c0, h0, h5, h6⟩ := k2 o ho
+          simp only [getSend_def, findL_setL]
+          grind
+        · exact k3a
+        · exact k3b
+        · exact k4
+        · exact da
+        · exact ad
+        · intro x hx; rcases mem_setL hx with rfl | hx
+          · simp [h3]
+          · exact sa x hx
+      | take c' h1 h2 h3 h4 h5 h6 =>
+        simp only [setSend_def]
+        constructor
+        · simpa using h5
+        · intro x hx; rcases mem_setL hx with rfl | hx
+          · rw [h1, h2]; exact k1 c hm
+          · exact k1 x hx
+        · intro o ho
+          have hk := k1 c hm
+          simp only [getSend_def, findL_setL]
+          grind
+        · exact k3a
+        · exact k3b
+        · intro ha; obtain ⟨o, ho, _⟩ := k4 ha; simp [h6] at ho
+        · exact da
+        · exact ad
+        · intro x hx; rcases mem_setL hx with rfl | hx
+          · simp [h3]
+          · exact sa x hx
+      | done c' o h1 h2 h3 h4 h5 h6 =>
+        simp only [setSend_def]
+        constructor
+        · simp
+        · intro x hx; rcases mem_setL hx with rfl | hx
+          · rw [h1, h2]; exact k1 c hm
+          · exact k1 x hx
+        · simp
+        · exact k3a
+        · exact k3b
+        · simp
+        · exact da
+        · exact ad
+        · intro x hx; rcases mem_setL hx with rfl | hx
+          · intro _
+            obtain ⟨o', ho', ep, hep⟩ := k4 h6
+            refine ⟨ep, ?_⟩
+            grind
+          · exact sa x hx
+
+theorem inv_step {s : State} (h : Inv s) (e : Ev) : Inv (step s e) := by
+  cases e with
+  | close => exact inv_close h
+  | opened e => exact inv_opened h e
+  | recvMsg m v g => exact inv_recvMsg h m v g
+  | clearMsg k => exact inv_clearMsg h k
+  | ackMsg k => exact inv_ackMsg h k
+  | txLoop => exact inv_txLoop h
+  | sendStart m => exact inv_sendStart h m
+  | sendStep id => exact inv_sendStep h id
+  | sendCancel id => exact inv_sendCancel h id
+  | recvStep => exact inv_recvStep h
+
+theorem inv_of_reachable {s : State} (h : Reachable s) : Inv s := by
+  induction h with
+  | init => exact inv_init
+  | step e _ _ ih => exact inv_step ih e
+
+/-! ### The observations follow from the invariant -/
+
+theorem deliveredAuthentic_of_inv {s : State} (h : Inv s) : deliveredAuthentic s = true := by
+  simp only [deliveredAuthentic, List.all_eq_true, List.any_eq_true]
+  rintro ⟨m, ep⟩ hm
+  exact ⟨(m, true, true, ep), h.da m ep hm, by simp⟩
+
+theorem acksAreDelivered_of_inv {s : State} (h : Inv s) : acksAreDelivered s = true := by
+  simp only [acksAreDelivered, List.all_eq_true]
+  intro r hr
+  cases r with
+  | ack e k =>
+    obtain ⟨m, hm, hk⟩ := h.ad e k hr
+    simp only [List.any_eq_true]
+    exact ⟨(m, some e), hm, by simp [hk]⟩
+  | clear e k => rfl
+  | send e m => rfl
+
+theorem sendSuccessAcked_of_inv {s : State} (h : Inv s) : sendSuccessAcked s = true := by
+  simp only [sendSuccessAcked, List.all_eq_true, List.any_eq_true, Bool.or_eq_true]
+  intro c hc
+  by_cases hr : c.result = some true
+  · obtain ⟨ep, hep⟩ := h.sa c hc hr
+    exact Or.inr ⟨(c.id, ep), hep, by simp⟩
+  · exact Or.inl (by simp [hr])
+
+theorem outOwned_of_inv {s : State} (h : Inv s) : outOwned s = true := by
+  unfold outOwned
+  split
+  · rfl
+  · rename_i o ho
+    obtain ⟨c, hc, hm, h2⟩ := h.k2 o ho
+    simp only [List.any_eq_true]
+    refine ⟨c, getSend_mem hc, ?_⟩
+    have := getSend_id hc
+    rcases h2 with ⟨_, h3⟩ | ⟨h3, _⟩ <;> simp [this, hm, h3]
+
+theorem noOrphanOut_of_inv {s : State} (h : Inv s) : noOrphanOut s = true := by
+  unfold noOrphanOut
+  split
+  · rfl
+  · rename_i o ho
+    obtain ⟨c, hc, hm, h2⟩ := h.k2 o ho
+    simp only [List.any_eq_true, Bool.or_eq_true]
+    rcases h2 with ⟨h3, h4⟩ | ⟨_, h3⟩
+    · refine Or.inr ⟨c, getSend_mem hc, ?_⟩
+      have := getSend_id hc
+      simp [this, h3, h4]
+    · exact Or.inl h3
+
+end SigClient
 end Bifrost
